@@ -259,7 +259,7 @@ def run_case(case: dict, ctx: dict) -> dict:
             "lookup_all": r.chance(1, 4),
             "enum_seed": r.below(1 << 30),
             "dirty": r.chance(1, 3),
-            "support": r.choice([None, "never", "always"]),
+            "support": r.choice([None, "never", "always", "only"]),
         }
         if r.chance(1, 4) and lang in ("c", "cpp"):
             plan["ext"] = r.choice([".h", ".hh", "hpp", ".inc", ".h.in"])
@@ -330,6 +330,8 @@ def run_case(case: dict, ctx: dict) -> dict:
         except Exception as ex:  # pylint: disable=broad-except
             bump("ops", "skipped-reference-raises:" + type(ex).__name__)
             continue
+        if plan.get("support") == "only":
+            tfiles, nfiles = set(), set()  # only support files are generated: no type and no namespace file
         pre_out = snapshot.files_of(snapshot.snapshot(out, with_mtime=False))
         before = {k: v for k, v in snapshot.snapshot(world.sandbox, with_mtime=True).items() if not _under(k, out_real_rel)}
         inv = world.invocation(opts, enum_seed=plan["enum_seed"] + step, inrun=["sims.c11:install_tree_invariants"])
